@@ -1170,8 +1170,25 @@ extern "C" long nsim_sys_syscall (long nr, long a1, long a2, long a3, long a4, l
 }
 
 // clock, yield, sleep
+// F6, second form (only where the family asks for it): just before a clock read the clock may jump forward onto an instant that lies a
+// round distance before a full second (or on it), so that the code under test sees readings like x.990000000 s and its own
+// arithmetic on them (reading + 10 ms ...) hits the carry boundary exactly.  Always a recorded choice; at most three per run.
+static void clock_align_choice () {
+	if (!nsim_cfg.clock_align || g.draining) return;
+	static const int64_t before[8] = { 0, 1000000, 10000000, 20000000, 30000000, 40000000, 50000000, 100000000 };
+	int sv = 0;
+	if (!g.replay_mode && g.align_jumps < 3 && rnd_p (g.rng, 1500)) sv = 1 + (int) rnd (g.rng, 8);
+	int v = take_choice (CH_CLOCK, 9, sv);
+	if (v && g.align_jumps < 3) {
+		int64_t sub = g.now % 1000000000LL, want = (1000000000LL - before[v - 1]) % 1000000000LL;
+		g.now += (want - sub + 1000000000LL) % 1000000000LL;
+		g.align_jumps++; g.clock_jumps++;
+		TRACE ("clock aligned to +%lld", (long long) (g.now - g.start));
+	}
+}
 extern "C" int nsim_sys_clock_gettime (clockid_t clk, struct timespec *ts) {
 	if (!g.in_run || !g.cur) return ::clock_gettime (clk, ts);
+	clock_align_choice ();
 	ts->tv_sec = g.now / 1000000000LL;
 	ts->tv_nsec = g.now % 1000000000LL;
 	g.now += CLOCKREAD_NS;
@@ -1180,6 +1197,7 @@ extern "C" int nsim_sys_clock_gettime (clockid_t clk, struct timespec *ts) {
 	return 0;
 }
 int64_t rt_cpp_now () {     // for std::chrono::system_clock::now() in the C++ configuration
+	if (g.in_run && g.cur) clock_align_choice ();
 	int64_t v = g.now;
 	if (g.in_run && g.cur) {
 		g.now += CLOCKREAD_NS;
@@ -1722,7 +1740,7 @@ void rt_reset_run (uint64_t seed) {
 	memset (g.faults_fired, 0, sizeof g.faults_fired);
 	memset (g.nchoices, 0, sizeof g.nchoices);
 	memset (g.probe_hit, 0, sizeof g.probe_hit);
-	g.faults_total = 0; g.clock_jumps = 0; g.idle_jumps = 0; g.switches = 0; g.switches_in_nsync = 0;
+	g.faults_total = 0; g.align_jumps = 0; g.clock_jumps = 0; g.idle_jumps = 0; g.switches = 0; g.switches_in_nsync = 0;
 	g.natomics = 0; g.futex_waits = 0; g.futex_blocks = 0; g.futex_wakes = 0; g.nyields = 0; g.nmallocs = 0; g.nfrees = 0;
 	g.ctor_allocs = 0; g.nacquires = 0; g.fibres_total = 0;
 	g.spin_yields = 0; g.progress_mark = 0;
